@@ -507,7 +507,7 @@ func c18LastBeforeAsAWhole(p *Prog, r *Report, rule string) {
 	seqs := []int64{2, 4, 6}
 	cases, bad := 0, ""
 	for n := 1; n <= 3; n++ {
-		for pr := int64(1); pr <= 7; pr++ {
+		for pr := int64(0); pr <= 7; pr++ { // (0: the point below every possible version)
 			var elems []*Val
 			for i := 0; i < n; i++ {
 				elems = append(elems, &Val{Ptr: &Val{Fields: map[string]*Val{"v": {Fields: map[string]*Val{"Seq": intVal(seqs[i]), "Key": strVal("k")}, Complete: true}}, Complete: true}})
@@ -521,6 +521,14 @@ func c18LastBeforeAsAWhole(p *Prog, r *Report, rule string) {
 			fv := &Val{Ptr: &Val{Fields: map[string]*Val{fileFields.Arr: {IsSlice: true, Elems: elems}}}}
 			env := &Env{P: p, Pkg: lb.Pkg, Vars: map[types.Object]*Val{recv: fv, probe: intVal(pr)}}
 			env.Hook = func(e *Env, x ast.Expr) (*Val, bool) {
+				// the newest version of the same list (a short cut may answer with it): the last element of the mirror
+				if c, ok := x.(*ast.CallExpr); ok && len(c.Args) == 0 && (p.callIs(e.Pkg, c, "(*internal/model/core.file).Latest") || p.callIs(e.Pkg, c, "(*internal/model/core.List).Back")) {
+					last := elems[len(elems)-1]
+					if p.callIs(e.Pkg, c, "(*internal/model/core.List).Back") {
+						return last, true
+					}
+					return last.Ptr.Fields["v"], true
+				}
 				// ptr.Val(x): the pointee, the zero value for nil
 				if c, ok := x.(*ast.CallExpr); ok && len(c.Args) == 1 && p.callIs(e.Pkg, c, "internal/utils/ptr.Val") {
 					v := e.eval(c.Args[0])
